@@ -187,6 +187,7 @@ type Exec struct {
 	wrap64    bool
 	allowHeapClosure bool
 	anchorResults []Val
+	anchorArgs    []Val
 	inGoal    int
 	goalIx    []string
 	topTargets []modTarget
@@ -244,6 +245,7 @@ func (ex *Exec) heapGet(st *State, key string, s *Sort, elemGo ...types.Type) st
 				ex.w.declConst(sym("H0_alloc"), ex.w.setSort(sRef))
 				ex.w.declConst(sym("H0_arralloc"), ex.w.setSort(sArrId))
 				ex.w.axioms = append(ex.w.axioms, ax)
+				ex.w.weak[ax] = true
 				ex.typedKeys[key] = true
 			}
 		}
@@ -261,6 +263,7 @@ func (ex *Exec) heapGet(st *State, key string, s *Sort, elemGo ...types.Type) st
 			ex.w.declConst(sym("H0_alloc"), ex.w.setSort(sRef))
 			ex.w.declConst(sym("H0_arralloc"), ex.w.setSort(sArrId))
 			ex.w.axioms = append(ex.w.axioms, ax)
+			ex.w.weak[ax] = true
 			ex.typedKeys[key] = true
 		}
 	}
